@@ -273,6 +273,8 @@ def run(ck, facts, tier, only=None):
             got = cel.Ev(facts, hooks=hk6).apply_fn(r["fn"], [S, Rec(NC, {"union_cal": Sym("field", "union_cal")})], 0)
             ck.check(r4, "eq[Cal,NamedCal]", vkey(got) == vkey(Sym("uc_eq", vkey(Sym("field", "union_cal")), vkey(S))), "Cal == NamedCal does not delegate to the named calendar's union equality",
                      "%s:%d" % (r["file"], r["line"]), detail=cel.vfmt(got)[:300], sample="other.union_cal.eq(self)")
+    if only is not None:
+        return          # included by another property for the named rules only: none of this module's own includes
     from rules import pywrap
     pywrap.run_calendar_wrappers(ck, facts)          # what a Python user calls is the wrapper: it must hand its arguments to the core method unchanged
     # a name that arrives in a stored document goes through the same parser: "regardless of letter case", "more than one '|' is an error" (C20 S20.2 for
@@ -281,6 +283,15 @@ def run(ck, facts, tier, only=None):
     nd6, tb6 = list(ck.not_decided), list(ck.trusted)
     c20m.loader_rule(ck, facts, only={"calendars::calendar::NamedCal"})
     c16m.run(ck, facts, tier, only_types=r"^calendars::calendar::")
+    # "a named calendar behaves like the explicit combination": each name must resolve to its own table (C07 R07.1 wiring; R07.2 incl. fed = nyc minus Good Friday)
+    if not getattr(ck, "_c06_c07_nested", False) and (ck._only is None or ck._only & {"R07.1", "R07.2"}):
+        ck._c06_c07_nested = True
+        try:
+            from rules import c07 as c07m
+            with ck.restrict({"R07.1", "R07.2"}):
+                c07m.run(ck, facts, tier)
+        finally:
+            ck._c06_c07_nested = False
     ck.not_decided[:], ck.trusted[:] = nd6, tb6
     ck.not_decided += ["nothing about concrete dates (that is C07)", "equality between two plain Cal objects is the derived structural one (not part of the statement)"]
     ck.trusted += ["lib/cel.py quantifier model (all/any as forall/exists over a symbolic element)"]
